@@ -1184,3 +1184,85 @@ def pairpos_effective(subtables, num_glyphs):
                     if v != _ZERO_PAIR and (g1, g2) not in listed:
                         out[(g1, g2)] = v
     return out
+
+
+# ---------------------------------------------------------------- DeltaSetIndexMap (HVAR / VVAR / avar 2 / COLR)
+def delta_set_index_map(data, off=0):
+    """-> dict(format, entryFormat, innerBits, entrySize, entries [(outer, inner)], size)"""
+    fmt, ef = data[off], data[off + 1]
+    if fmt == 0:
+        count, o = _u16(data, off + 2), off + 4
+    elif fmt == 1:
+        count, o = _u32(data, off + 2), off + 6
+    else:
+        raise Bad("DeltaSetIndexMap format %d" % fmt)
+    if ef & 0xC0:
+        raise Bad("DeltaSetIndexMap entryFormat reserved bits set")
+    inner_bits = (ef & 0x0F) + 1
+    size = ((ef & 0x30) >> 4) + 1
+    if o + size * count > len(data):
+        raise Bad("DeltaSetIndexMap data truncated")
+    out = []
+    mask = (1 << inner_bits) - 1
+    for i in range(count):
+        v = int.from_bytes(data[o + size * i:o + size * (i + 1)], "big")
+        out.append((v >> inner_bits, v & mask))
+    return {"format": fmt, "entryFormat": ef, "innerBits": inner_bits, "entrySize": size, "entries": out,
+            "size": o + size * count - off}
+
+
+def hvar(data, vertical=False):
+    """HVAR / VVAR -> dict(version, storeOffset, maps {name: None | delta_set_index_map(...)})"""
+    names = ("advance", "sb1", "sb2") + (("vorg",) if vertical else ())
+    out = {"version": _u32(data, 0), "storeOffset": _u32(data, 4), "maps": {}}
+    for i, n in enumerate(names):
+        o = _u32(data, 8 + 4 * i)
+        out["maps"][n] = delta_set_index_map(data, o) if o else None
+    return out
+
+
+def colr_var_index_map(data):
+    """COLR version 1: the VarIndexMap (DeltaSetIndexMap) or None."""
+    if _u16(data, 0) < 1:
+        return None
+    o = _u32(data, 26)
+    return delta_set_index_map(data, o) if o else None
+
+
+# ---------------------------------------------------------------- small tables compiled from dicts
+def vorg(data):
+    major, minor, default, n = struct.unpack_from(">HHhH", data, 0)
+    recs = [struct.unpack_from(">Hh", data, 8 + 4 * i) for i in range(n)]
+    if any(a[0] >= b[0] for a, b in zip(recs, recs[1:])):
+        raise Bad("VORG records not sorted by glyph index (readers binary-search them)")
+    if len(data) != 8 + 4 * n:
+        raise Bad("VORG length")
+    return {"version": (major, minor), "default": default, "records": dict(recs)}
+
+
+def gasp(data):
+    version, n = _u16(data, 0), _u16(data, 2)
+    recs = [(_u16(data, 4 + 4 * i), _u16(data, 6 + 4 * i)) for i in range(n)]
+    if any(a[0] >= b[0] for a, b in zip(recs, recs[1:])):
+        raise Bad("gasp ranges not sorted by rangeMaxPPEM")
+    if len(data) != 4 + 4 * n:
+        raise Bad("gasp length")
+    return {"version": version, "ranges": recs}
+
+
+def hdmx(data, num_glyphs):
+    version, n, size = _u16(data, 0), _s16(data, 2), _s32(data, 4)
+    if size < num_glyphs + 2 or size % 4:
+        raise Bad("hdmx sizeDeviceRecord %d for %d glyphs" % (size, num_glyphs))
+    recs = []
+    for i in range(n):
+        o = 8 + size * i
+        rec = data[o:o + size]
+        if len(rec) != size:
+            raise Bad("hdmx record truncated")
+        recs.append((rec[0], rec[1], list(rec[2:2 + num_glyphs])))
+    if any(a[0] >= b[0] for a, b in zip(recs, recs[1:])):
+        raise Bad("hdmx records not sorted by pixel size")
+    if len(data) != 8 + size * n:
+        raise Bad("hdmx length")
+    return {"version": version, "records": recs}
